@@ -50,3 +50,373 @@ var s1 = [256]byte{
 	0x88, 0xb1, 0x98, 0x7c, 0xf3, 0x3d, 0x60, 0x6c, 0x7b, 0xca, 0xd3, 0x1f, 0x32, 0x65, 0x04, 0x28,
 	0x64, 0xbe, 0x85, 0x9b, 0x2f, 0x59, 0x8a, 0xd7, 0xb0, 0x25, 0xac, 0xaf, 0x12, 0x03, 0xe2, 0xf2,
 }
+
+// the 15-bit constants d0..d15 of ZUC-128 (specification section 3.6.1), written as the bit strings of the text
+var d128 = [16]uint32{
+	0b100010011010111, 0b010011010111100, 0b110001001101011, 0b001001101011110,
+	0b101011110001001, 0b011010111100010, 0b111000100110101, 0b000100110101111,
+	0b100110101111000, 0b010111100010011, 0b110101111000100, 0b001101011110001,
+	0b101111000100110, 0b011110001001101, 0b111100010011010, 0b100011110101100,
+}
+
+// Use selects the 7-bit constants d0..d15 of ZUC-256: they differ between the
+// cipher and the MAC of each tag length (ZUC-256 specification, sections 2 and 3).
+type Use int
+
+const (
+	Cipher Use = iota
+	MAC32
+	MAC64
+	MAC128
+)
+
+var d256 = [4][16]uint32{
+	Cipher: {0b0100010, 0b0101111, 0b0100100, 0b0101010, 0b1101101, 0b1000000, 0b1000000, 0b1000000,
+		0b1000000, 0b1000000, 0b1000000, 0b1000000, 0b1000000, 0b1010010, 0b0010000, 0b0110000},
+	MAC32: {0b0100010, 0b0101111, 0b0100101, 0b0101010, 0b1101101, 0b1000000, 0b1000000, 0b1000000,
+		0b1000000, 0b1000000, 0b1000000, 0b1000000, 0b1000000, 0b1010010, 0b0010000, 0b0110000},
+	MAC64: {0b0100011, 0b0101111, 0b0100100, 0b0101010, 0b1101101, 0b1000000, 0b1000000, 0b1000000,
+		0b1000000, 0b1000000, 0b1000000, 0b1000000, 0b1000000, 0b1010010, 0b0010000, 0b0110000},
+	MAC128: {0b0100011, 0b0101111, 0b0100101, 0b0101010, 0b1101101, 0b1000000, 0b1000000, 0b1000000,
+		0b1000000, 0b1000000, 0b1000000, 0b1000000, 0b1000000, 0b1010010, 0b0010000, 0b0110000},
+}
+
+// UseForTag maps a ZUC-256 MAC tag size in bytes to the constant set.
+func UseForTag(tagBytes int) (Use, error) {
+	switch tagBytes {
+	case 4:
+		return MAC32, nil
+	case 8:
+		return MAC64, nil
+	case 16:
+		return MAC128, nil
+	}
+	return 0, fmt.Errorf("refzuc: no ZUC-256 MAC with %d-byte tags", tagBytes)
+}
+
+const p31 = 1<<31 - 1
+
+// State is the ZUC state: sixteen 31-bit LFSR cells over GF(2^31-1) and the two
+// 32-bit memory cells of the nonlinear function F.
+type State struct {
+	s      [16]uint32
+	r1, r2 uint32
+}
+
+// sboxCover, when non-nil, records which S-box entries were looked up (SelfTest only).
+var sboxCover *[2][256]bool
+
+// sub is S = (S0, S1, S0, S1) applied to the four bytes of x.
+func sub(x uint32) uint32 {
+	b0, b1, b2, b3 := byte(x>>24), byte(x>>16), byte(x>>8), byte(x)
+	if sboxCover != nil {
+		sboxCover[0][b0], sboxCover[1][b1], sboxCover[0][b2], sboxCover[1][b3] = true, true, true, true
+	}
+	return uint32(s0[b0])<<24 | uint32(s1[b1])<<16 | uint32(s0[b2])<<8 | uint32(s1[b3])
+}
+
+func rotl(x uint32, k uint) uint32 { return x<<k | x>>(32-k) }
+
+func lin1(x uint32) uint32 { return x ^ rotl(x, 2) ^ rotl(x, 10) ^ rotl(x, 18) ^ rotl(x, 24) }
+func lin2(x uint32) uint32 { return x ^ rotl(x, 8) ^ rotl(x, 14) ^ rotl(x, 22) ^ rotl(x, 30) }
+
+// reorganise is the bit-reorganisation layer: H = bits 30..15 of a cell, L = bits 15..0.
+func (z *State) reorganise() (x0, x1, x2, x3 uint32) {
+	h := func(c uint32) uint32 { return (c >> 15) & 0xffff }
+	l := func(c uint32) uint32 { return c & 0xffff }
+	x0 = h(z.s[15])<<16 | l(z.s[14])
+	x1 = l(z.s[11])<<16 | h(z.s[9])
+	x2 = l(z.s[7])<<16 | h(z.s[5])
+	x3 = l(z.s[2])<<16 | h(z.s[0])
+	return
+}
+
+// f is the nonlinear function F.
+func (z *State) f(x0, x1, x2 uint32) uint32 {
+	w := (x0 ^ z.r1) + z.r2
+	w1 := z.r1 + x1
+	w2 := z.r2 ^ x2
+	z.r1 = sub(lin1(w1<<16 | w2>>16))
+	z.r2 = sub(lin2(w2<<16 | w1>>16))
+	return w
+}
+
+// shift clocks the LFSR; u is the 31-bit input of the initialisation mode (0 in work mode).
+func (z *State) shift(u uint32) {
+	v := uint64(z.s[15])<<15 + uint64(z.s[13])<<17 + uint64(z.s[10])<<21 + uint64(z.s[4])<<20 + uint64(z.s[0])<<8 + uint64(z.s[0])
+	v = (v%p31 + uint64(u)) % p31
+	if v == 0 {
+		v = p31
+	}
+	copy(z.s[:15], z.s[1:])
+	z.s[15] = uint32(v)
+}
+
+// start runs the initialisation stage (32 rounds feeding W>>1 back) and the first,
+// discarded, round of the working stage.
+func (z *State) start() {
+	z.r1, z.r2 = 0, 0
+	for i := 0; i < 32; i++ {
+		x0, x1, x2, _ := z.reorganise()
+		w := z.f(x0, x1, x2)
+		z.shift(w >> 1)
+	}
+	x0, x1, x2, _ := z.reorganise()
+	z.f(x0, x1, x2)
+	z.shift(0)
+}
+
+// Word produces the next 32-bit keystream word.
+func (z *State) Word() uint32 {
+	x0, x1, x2, x3 := z.reorganise()
+	w := z.f(x0, x1, x2) ^ x3
+	z.shift(0)
+	return w
+}
+
+// Words produces the next n keystream words.
+func (z *State) Words(n int) []uint32 {
+	out := make([]uint32, n)
+	for i := range out {
+		out[i] = z.Word()
+	}
+	return out
+}
+
+// Bytes produces the next n keystream bytes (words big-endian; a trailing partial word is discarded).
+func (z *State) Bytes(n int) []byte {
+	out := make([]byte, 0, n+4)
+	for len(out) < n {
+		w := z.Word()
+		out = append(out, byte(w>>24), byte(w>>16), byte(w>>8), byte(w))
+	}
+	return out[:n]
+}
+
+// New128 loads a 128-bit key and a 128-bit IV: s_i = k_i || d_i || iv_i (8, 15 and 8 bits).
+func New128(key, iv []byte) (*State, error) {
+	if len(key) != 16 || len(iv) != 16 {
+		return nil, errors.New("refzuc: ZUC-128 needs a 16-byte key and a 16-byte IV")
+	}
+	z := &State{}
+	for i := 0; i < 16; i++ {
+		z.s[i] = uint32(key[i])<<23 | d128[i]<<8 | uint32(iv[i])
+	}
+	z.start()
+	return z, nil
+}
+
+// UnpackIV256 returns the 25 IV elements of ZUC-256: IV0..IV16 are bytes, IV17..IV24
+// are 6-bit values. Accepted forms: 25 bytes (the last eight below 64) or 23 bytes in
+// which the eight 6-bit values are packed, most significant bit first, into bytes 17..22.
+func UnpackIV256(iv []byte) ([25]byte, error) {
+	var out [25]byte
+	switch len(iv) {
+	case 25:
+		copy(out[:], iv)
+		for i := 17; i < 25; i++ {
+			if out[i] > 63 {
+				return out, errors.New("refzuc: IV17..IV24 are 6-bit values")
+			}
+		}
+	case 23:
+		copy(out[:17], iv)
+		for k := 0; k < 8; k++ { // 6-bit value k occupies bits 6k..6k+5 of the 48-bit tail
+			var v byte
+			for b := 0; b < 6; b++ {
+				pos := 6*k + b
+				bit := iv[17+pos/8] >> (7 - uint(pos%8)) & 1
+				v = v<<1 | bit
+			}
+			out[17+k] = v
+		}
+	default:
+		return out, errors.New("refzuc: ZUC-256 IV must have 23 (packed) or 25 bytes")
+	}
+	return out, nil
+}
+
+// New256 loads a 256-bit key and a 184-bit IV as in the ZUC-256 specification
+// (cells are 8 || 7 || 8 || 8 bits) with the constants of the given use.
+func New256(key, iv []byte, use Use) (*State, error) {
+	if len(key) != 32 {
+		return nil, errors.New("refzuc: ZUC-256 needs a 32-byte key")
+	}
+	v, err := UnpackIV256(iv)
+	if err != nil {
+		return nil, err
+	}
+	d := d256[use]
+	k := key
+	cell := func(a byte, b uint32, c, e byte) uint32 {
+		return uint32(a)<<23 | b<<16 | uint32(c)<<8 | uint32(e)
+	}
+	z := &State{}
+	z.s[0] = cell(k[0], d[0], k[21], k[16])
+	z.s[1] = cell(k[1], d[1], k[22], k[17])
+	z.s[2] = cell(k[2], d[2], k[23], k[18])
+	z.s[3] = cell(k[3], d[3], k[24], k[19])
+	z.s[4] = cell(k[4], d[4], k[25], k[20])
+	z.s[5] = cell(v[0], d[5]|uint32(v[17]), k[5], k[26])
+	z.s[6] = cell(v[1], d[6]|uint32(v[18]), k[6], k[27])
+	z.s[7] = cell(v[10], d[7]|uint32(v[19]), k[7], v[2])
+	z.s[8] = cell(k[8], d[8]|uint32(v[20]), v[3], v[11])
+	z.s[9] = cell(k[9], d[9]|uint32(v[21]), v[12], v[4])
+	z.s[10] = cell(v[5], d[10]|uint32(v[22]), k[10], k[28])
+	z.s[11] = cell(k[11], d[11]|uint32(v[23]), v[6], v[13])
+	z.s[12] = cell(k[12], d[12]|uint32(v[24]), v[7], v[14])
+	z.s[13] = cell(k[13], d[13], v[15], v[8])
+	z.s[14] = cell(k[14], d[14]|uint32(k[31]>>4), v[16], v[9])
+	z.s[15] = cell(k[15], d[15]|uint32(k[31]&0x0f), k[30], k[29])
+	z.start()
+	return z, nil
+}
+
+// NewStream returns the cipher state for a 16-byte key/16-byte IV (ZUC-128) or a
+// 32-byte key/23- or 25-byte IV (ZUC-256 with the cipher constants).
+func NewStream(key, iv []byte) (*State, error) {
+	switch len(key) {
+	case 16:
+		return New128(key, iv)
+	case 32:
+		return New256(key, iv, Cipher)
+	}
+	return nil, errors.New("refzuc: key must have 16 or 32 bytes")
+}
+
+// EEA3IV builds the IV of 128-EEA3 from COUNT (32 bits), BEARER (5 bits) and DIRECTION (1 bit).
+func EEA3IV(count, bearer, direction uint32) []byte {
+	iv := make([]byte, 16)
+	iv[0], iv[1], iv[2], iv[3] = byte(count>>24), byte(count>>16), byte(count>>8), byte(count)
+	iv[4] = byte(bearer&0x1f)<<3 | byte(direction&1)<<2
+	// iv[5..7] = 0
+	copy(iv[8:], iv[:8])
+	return iv
+}
+
+// EIA3IV builds the IV of 128-EIA3.
+func EIA3IV(count, bearer, direction uint32) []byte {
+	iv := make([]byte, 16)
+	iv[0], iv[1], iv[2], iv[3] = byte(count>>24), byte(count>>16), byte(count>>8), byte(count)
+	iv[4] = byte(bearer&0x1f) << 3
+	// iv[5..7] = 0
+	iv[8] = iv[0] ^ byte(direction&1)<<7
+	iv[9], iv[10], iv[11], iv[12], iv[13] = iv[1], iv[2], iv[3], iv[4], iv[5]
+	iv[14] = iv[6] ^ byte(direction&1)<<7
+	iv[15] = iv[7]
+	return iv
+}
+
+// keyBits returns n keystream bits, one per element, most significant bit of each word first.
+func keyBits(z *State, n int) []byte {
+	out := make([]byte, 0, n+32)
+	for len(out) < n {
+		w := z.Word()
+		for b := 31; b >= 0; b-- {
+			out = append(out, byte(w>>uint(b))&1)
+		}
+	}
+	return out
+}
+
+// MsgBit is bit i of a message (bit 0 = most significant bit of byte 0).
+func MsgBit(m []byte, i int) byte { return m[i/8] >> (7 - uint(i%8)) & 1 }
+
+func packBits(t []byte) []byte {
+	out := make([]byte, len(t)/8)
+	for i, b := range t {
+		out[i/8] |= b << (7 - uint(i%8))
+	}
+	return out
+}
+
+// EIA3 is 128-EIA3 over the first nbits bits of msg, bit by bit:
+// T = XOR of the 32-bit keystream windows z[i..i+31] over the set message bits i,
+// XOR the window at LENGTH, XOR the last word z[32(L-1)..], L = ceil(LENGTH/32)+2.
+func EIA3(key, iv, msg []byte, nbits int) ([]byte, error) {
+	z, err := New128(key, iv)
+	if err != nil {
+		return nil, err
+	}
+	if nbits < 0 || len(msg)*8 < nbits {
+		return nil, errors.New("refzuc: message shorter than nbits")
+	}
+	L := (nbits+31)/32 + 2
+	ks := keyBits(z, 32*L)
+	t := make([]byte, 32)
+	window := func(at int) {
+		for j := range t {
+			t[j] ^= ks[at+j]
+		}
+	}
+	for i := 0; i < nbits; i++ {
+		if MsgBit(msg, i) == 1 {
+			window(i)
+		}
+	}
+	window(nbits)
+	window(32 * (L - 1))
+	return packBits(t), nil
+}
+
+// MAC256 is the ZUC-256 MAC with a tag of tagBytes (4, 8 or 16) bytes over the
+// first nbits bits of msg, bit by bit: with t the tag length in bits,
+// Tag = z[0..t-1]; for every set message bit i Tag ^= z[t+i .. t+i+t-1];
+// finally Tag ^= z[t+LENGTH .. t+LENGTH+t-1].
+func MAC256(key, iv []byte, tagBytes int, msg []byte, nbits int) ([]byte, error) {
+	use, err := UseForTag(tagBytes)
+	if err != nil {
+		return nil, err
+	}
+	z, err := New256(key, iv, use)
+	if err != nil {
+		return nil, err
+	}
+	if nbits < 0 || len(msg)*8 < nbits {
+		return nil, errors.New("refzuc: message shorter than nbits")
+	}
+	t := 8 * tagBytes
+	ks := keyBits(z, nbits+2*t)
+	tag := make([]byte, t)
+	window := func(at int) {
+		for j := range tag {
+			tag[j] ^= ks[at+j]
+		}
+	}
+	window(0)
+	for i := 0; i < nbits; i++ {
+		if MsgBit(msg, i) == 1 {
+			window(t + i)
+		}
+	}
+	window(t + nbits)
+	return packBits(tag), nil
+}
+
+// MACKeystream256 returns the first nwords keystream words of the ZUC-256 MAC
+// instance (used by the model of the known tail-window defect in wl/c11).
+func MACKeystream256(key, iv []byte, tagBytes int, nwords int) ([]uint32, error) {
+	use, err := UseForTag(tagBytes)
+	if err != nil {
+		return nil, err
+	}
+	z, err := New256(key, iv, use)
+	if err != nil {
+		return nil, err
+	}
+	return z.Words(nwords), nil
+}
+
+// EEA3 is 128-EEA3 on whole bytes: data XOR keystream.
+func EEA3(key []byte, count, bearer, direction uint32, data []byte) ([]byte, error) {
+	z, err := New128(key, EEA3IV(count, bearer, direction))
+	if err != nil {
+		return nil, err
+	}
+	ks := z.Bytes(len(data))
+	out := make([]byte, len(data))
+	for i := range data {
+		out[i] = data[i] ^ ks[i]
+	}
+	return out, nil
+}
